@@ -147,3 +147,8 @@ package xpair
 //@ func (*socket).SetOption
 //@   ensures (name == protocol.OptionReadQLen || name == protocol.OptionWriteQLen) && isnil(result) ==> evcount("closed") == 1
 //@   ensures !isnil(result) ==> evcount("closed") == 0
+// ---- generated Info contracts (tools/gen_info_contracts.py) ----
+//@ func (*socket).Info
+//@   ensures result.Self == 16 && result.Peer == 16 && result.SelfName == "pair" && result.PeerName == "pair"
+//@
+// ---- end generated Info contracts ----
